@@ -69,6 +69,24 @@ class Concretizer:
                     cv = str(self.model.eval(self.z.cls(c), model_completion=True))
                     if cv in self.cls_name:
                         classes[t[1]] = self.cls_name[cv]
+        if uni.mode == 'reld':
+            # what each consumer sees of each value: class of G_d(cls(v)) in the model
+            allvals = set(hist.values()) | set(e[2] for e in events if e[0] == 'ok')
+            val_term = {}
+            for t, c in list(self.z.terms.items()):
+                if t and t[0] not in ('cls', 'capp'):
+                    try:
+                        val_term.setdefault(self.sval(t), c)
+                    except Exception:
+                        pass
+            pnames = {}
+            for (kind, d), g in [(k, f) for k, f in self.z.funcs.items() if isinstance(k, tuple) and len(k) == 2 and k[0] == 'G']:
+                for v in allvals:
+                    c = val_term.get(v)
+                    if c is None:
+                        continue
+                    pv = str(self.model.eval(g(self.z.cls(c)), model_completion=True))
+                    classes[d + '\x01' + v] = pnames.setdefault((d, pv), 'p%d' % len(pnames))
         return S.Scenario(name, uni.mode, hist, present, classes, dict(uni.inputs), uni.nodes, uni.edges, events)
 
 
